@@ -852,8 +852,10 @@ class Store:
             return
         # fresh derived array: keep its closed form when known (valfn), else an opaque version
         al = out.alloc
+        if al.valfn is not None and not any(r.alloc.id in self.havoc for r in op.reads):
+            return      # closed form known from construction and inputs are immutable
         if al.valfn is not None:
-            return
+            self.havoc.add(al.id)
         fn = op.fn
         if fn in ("add", "sub", "mul", "div", "neg", "abs", "fabs", "sqrt", "astype", "copy") and len(op.reads) >= 1:
             if self.elementwise(op):
